@@ -1462,8 +1462,9 @@ class EAStoryDelete(ElementAction):
         A list of :class:`~mosromgr.moselements.Story` objects to be deleted
         """
         return [
-            Story(story_tag)
-            for story_tag in self.base_tag.findall('element_source')
+            Story(source, id=story_id.text)
+            for source in self.base_tag.findall('element_source')
+            for story_id in source.findall('storyID')
         ]
 
     def merge(self, ro: RunningOrder) -> RunningOrder:
@@ -1522,8 +1523,9 @@ class EAItemDelete(ElementAction):
         A list of :class:`~mosromgr.moselements.Item` objects being deleted
         """
         return [
-            Item(item_tag)
-            for item_tag in self.base_tag.findall('element_source')
+            Item(source, id=item_id.text)
+            for source in self.base_tag.findall('element_source')
+            for item_id in source.findall('itemID')
         ]
 
     def merge(self, ro: RunningOrder) -> RunningOrder:
@@ -1876,8 +1878,9 @@ class EAStoryMove(ElementAction):
         A list of :class:`~mosromgr.moselements.Story` objects being moved
         """
         return [
-            Story(story_tag)
-            for story_tag in self.base_tag.findall('element_source')
+            Story(source, id=story_id.text)
+            for source in self.base_tag.findall('element_source')
+            for story_id in source.findall('storyID')
         ]
 
     def merge(self, ro: RunningOrder) -> RunningOrder:
